@@ -56,9 +56,25 @@ impl CalSet {
     }
 }
 
+thread_local! {
+    /// Set when a closed parameter with a tiny non-zero value (0 < |v| < 1e-7) took part in a
+    /// match decision. The library compares parameters after simplification, and its simplifier
+    /// documents that a factor below 1e-10 folds a product to zero; which side of that threshold a
+    /// repeatedly squared parameter is on at a given level is the simplifier's business (C12), not
+    /// the matcher's, so callers that build such parameters (C18's growth programs) do not compare
+    /// the expansion when this flag is set.
+    pub static THRESHOLD_SENSITIVE: std::cell::Cell<bool> = const { std::cell::Cell::new(false) };
+}
+
 /// Constant value of a parameter expression, if it has no variables / memory references.
 fn constant(e: &Expression) -> Option<num_complex::Complex64> {
-    crate::model::eval::eval_closed(e)
+    let v = crate::model::eval::eval_closed(e);
+    if let Some(z) = v {
+        if z.norm() > 0.0 && z.norm() < 1e-7 {
+            THRESHOLD_SENSITIVE.with(|f| f.set(true));
+        }
+    }
+    v
 }
 
 /// "non-variable parameters equal its own": equal constants, or structurally equal otherwise.
